@@ -7,7 +7,7 @@ assumed interfaces) plus directives that pull the *real* items out of the reposi
   //@item const|struct|enum|type <Name>          the item, rules T1-T4 applied
   //@fn <Type>::<name> [ret=<r>] [twin=<kani harness>]   (or a free `<name>`; `Trait@Type::name`)
   //@+ <spec text>            requires/ensures/decreases, placed between signature and body
-  //@at before|after "<text occurring once in the body>"
+  //@at before|after "<text occurring once in the body>"      (`//@at?` = optional hint: skipped if the anchor is gone)
   //@+ <proof text>           ghost code placed on its own line before/after that line
   //@loop "<text of the loop header>"
   //@+ <invariant/decreases>  placed between the loop header and its body
@@ -174,6 +174,7 @@ class Unit:
         self.template = os.path.join(VERUS_DIR, name + ".rs")
         self.functions = []     # dict(id, file, line_from, line_to, sha256, gen_from, gen_to, twin)
         self.dropped = []
+        self.skipped_hints = []
         self.sources = {}
 
     def src(self, rel):
@@ -309,10 +310,13 @@ class Unit:
                 blines = body.split("\n")
                 marks = {}   # line index -> (before[], after[])
                 loops = []
-                while i < len(lines) and re.match(r"\s*//@(at|loop|drop)\b", lines[i]):
+                while i < len(lines) and re.match(r"\s*//@(at\??|loop|drop)\b", lines[i]):
                     dd = lines[i].strip()[3:].strip()
                     i += 1
                     ins, i = take_plus(i)
+                    optional = dd.startswith("at?")
+                    if optional:
+                        dd = "at" + dd[3:]
                     m = re.match(r'(at\s+(before|after)|loop|drop)\s+"(.*)"\s*(#(\d+))?$', dd)
                     if not m:
                         raise ExtractError("bad directive: " + dd)
@@ -323,6 +327,10 @@ class Unit:
                         if nth > len(hits):
                             raise ExtractError("fn %s: anchor %r #%d not found (lost anchor)" % (spec, pat, nth))
                         hits = [hits[nth - 1]]
+                    if optional and len(hits) != 1:
+                        # an optional proof hint whose anchor is gone is skipped: the obligation is then simply harder to prove
+                        self.skipped_hints.append("%s: %r" % (spec, pat))
+                        continue
                     if len(hits) != 1:
                         raise ExtractError("fn %s: anchor %r matches %d lines (lost anchor)" % (spec, pat, len(hits)))
                     q = hits[0]
@@ -423,6 +431,7 @@ def run_unit(name):
     res["generated"] = gen
     res["functions"] = [dict(id=f["id"], sha256=f["sha256"], back_end="verus") for f in U.functions]
     res["dropped"] = U.dropped
+    res["skipped_hints"] = U.skipped_hints
     if rc is None:
         res.update(status="undecided", reason="verus timed out")
         return res
